@@ -85,6 +85,9 @@ MGT(s) == [i \in 1..nn |-> IF NodeVis(s, i) THEN <<1, nprop[i], LabCode(nlab[i])
 MEX(s) == {<<esrc[e], e, edst[e]>> : e \in {x \in adj : esrc[x] \in ASet(s) /\ EdgeVis(s, x) /\ NodeVis(s, edst[x])}}
 MNO(s) == [i \in 1..nn |-> {<<edst[e], e>> : e \in {x \in adj : esrc[x] = i}}]
 MNI(s) == [i \in 1..nn |-> {<<esrc[e], e>> : e \in {x \in adj : edst[x] = i}}]
+\* export_snapshot / to_memory / save: all_nodes() and all_edges() at the store epoch (C07)
+MXN == {<<n, nprop[n], LabCode(nlab[n])>> : n \in {x \in 1..nn : VisAt(nv[x], E)}}
+MXE == {<<e, esrc[e], edst[e]>> : e \in {x \in 1..ne : VisAt(ev[x], E)}}
 MNC == Cardinality({n \in 1..nn : VisAt(nv[n], E)})
 MEC == Cardinality({e \in 1..ne : VisAt(ev[e], E)})
 
@@ -101,6 +104,9 @@ IGT(G) == IGTx(G, nn)
 IEX(G) == IEXx(G, esrc, edst)
 INO(G) == INOx(G, nn, esrc, edst)
 INI(G) == INIx(G, nn, esrc, edst)
+\* a copy taken outside any transaction must be the committed graph
+IXN == {<<n, cg.pr[n], LabCode(cg.lab[n])>> : n \in cg.ns}
+IXE == {<<e, esrc[e], edst[e]>> : e \in cg.es}
 INC == Cardinality(cg.ns)
 IEC == Cardinality(cg.es)
 
